@@ -177,3 +177,42 @@ func TestBusyPollingUnderLockTerminates(t *testing.T) {
 		}
 	}
 }
+
+// Two tasks that poll with a non-blocking select must not starve a third one
+// under any strategy.
+func TestTwoPollersDoNotStarveProducer(t *testing.T) {
+	for strat := 0; strat < NumStrategies; strat++ {
+		for seed := uint64(1); seed < 30; seed++ {
+			got := 0
+			res := Run(Config{Seed: seed, Strategy: strat, StepCap: 20000}, func() {
+				ch := make(chan int, 1)
+				var wg WaitGroup
+				for i := 0; i < 2; i++ {
+					wg.Add(1)
+					GoNamed("poller", func() {
+						defer wg.Done()
+						for {
+							switch Select(true, RecvCase(ch)) {
+							case 0:
+								if _, ok := SelRecv2(ch); !ok {
+									return
+								}
+								got++
+							}
+						}
+					})
+				}
+				GoNamed("producer", func() {
+					for i := 0; i < 3; i++ {
+						Send(ch, i)
+					}
+					Close(ch)
+				})
+				wg.Wait()
+			})
+			if res.End != "done" || got != 3 {
+				t.Fatalf("strategy %s seed %d: %s got=%d", StrategyNames[strat], seed, res.String(), got)
+			}
+		}
+	}
+}
